@@ -671,6 +671,18 @@ func randomCase(r *core.Rand, profile string, real bool) []string {
 	if profile == "C09" {
 		tight = [2]bool{r.Chance(3, 4), r.Chance(3, 4)}
 	}
+	if r.Chance(1, 5) {
+		// receivers without a dynamic table: whatever the order in which header blocks leave the relay,
+		// they must decode (the F08b class cannot explain a wrong field list here)
+		for e := 0; e < 2; e++ {
+			if r.Chance(3, 4) {
+				g.emit("settings %s 1=0", epName(e))
+				g.tabSince[e] = append(g.tabSince[e], 0)
+				g.ackDue[1-e] = append(g.ackDue[1-e], []uint32{0})
+				core.Count("gen:receiver-table-size-zero")
+			}
+		}
+	}
 	for e := 0; e < 2; e++ {
 		if tight[e] || r.Chance(1, 3) {
 			g.settings(e, tight[e])
